@@ -213,8 +213,12 @@ func runCheck(id, tier, filter string) int {
 		}
 		fmt.Printf("[%s] loaded %s in %.1fs\n", id, u.Pkg, ld.LoadTime.Seconds())
 		var allEntries []string
+		seenEntry := map[string]bool{}
 		for _, e := range u.Entries {
-			allEntries = append(allEntries, e.Name)
+			if !seenEntry[e.Name] {
+				seenEntry[e.Name] = true
+				allEntries = append(allEntries, e.Name)
+			}
 		}
 		var cases []nativeCase
 		type caseMeta struct {
@@ -540,8 +544,12 @@ func cmdReplay(path string) int {
 	var entries []string
 	for _, u := range checks[rf.Property].Units {
 		if u.Pkg == rf.Pkg {
+			seenEntry := map[string]bool{}
 			for _, e := range u.Entries {
-				entries = append(entries, e.Name)
+				if !seenEntry[e.Name] {
+					seenEntry[e.Name] = true
+					entries = append(entries, e.Name)
+				}
 			}
 		}
 	}
